@@ -16,4 +16,12 @@ CHECKS["C13"] = dict(
    text="Held on the sampled detonator layouts/points (2-D and 3-D; interface, shadow-boundary and antipodal points included): detonator values, causality bounds, two-point Lipschitz bound, continuity across interfaces, eikonal equation by differences. Sampling, not proof.",
    design_ref="5/C13", note=_T + "; near the Kenamond3 antipode values are only accurate to sqrt(eps) R/D (arccos formulation) and the monitors allow 1e-7 R/D",
    technique="first-arrival invariants (Lipschitz/eikonal/continuity) monitored on recorded public calls")
+CHECKS["C04"] = dict(
+   text="Held on the sampled left/right states (all four wave patterns incl. S-C-R/R-C-S with a velocity difference, unequal gammas, JWL sets for the general solver), membrane positions, times and windows: integral balance of mass, momentum, energy from the returned fields by piecewise Simpson plus an independent uniform-grid balance. Sampling, not proof.",
+   design_ref="5/C04", note=_T + "; IGEOS tolerance 1e-8 of the summed magnitudes (measured 7e-12), GenEOS resolution-based",
+   technique="conservation monitor over recorded public calls (quadrature of returned fields vs flux balance)")
+CHECKS["C09"] = dict(
+   text="Held on the sampled state pairs/boosts/layouts: each Riemann problem against its mirror image and boosted copies (incl. boosts that put one state at rest), burn-time fields under the rigid motions that preserve each problem's symmetry. Sampling, not proof.",
+   design_ref="5/C09", note=_T + "; IGEOS star pressure is only accurate to bisect's absolute xtol (propagated acoustically into the tolerance)",
+   technique="metamorphic relation monitor on pairs of recorded public calls")
 NOT_YET = {}
